@@ -240,7 +240,9 @@ theorem parseFasta_append (c1 : Seq) (rs : List Rec) (id d sq : Seq) (h1 : FaCom
   rw [List.append_assoc, faRun_append, hrun]
   simp only
   rw [faRun_append, faRun_s6_eols_true e id d sq pe he hne]
-  simp only [faRun, hgt, h0]
+  simp only
+  rw [faRun_cons (.s6 id d sq true) 62 (b :: t), hgt, faRun_cons .s0 62 (b :: t), h0]
+  simp only
   cases faRun .s1 (b :: t) with
   | error x => rfl
   | ok p =>
